@@ -393,8 +393,9 @@ class Lexer:
                  |
                  (?=\${)      # an expression
                  |
-                 (?=</?%)  # a substitution or block or call start or end
-                              # - don't consume
+                 (?=<%|</%[\t ]*[^\t ]+?[\t ]*>)  # a substitution or block or
+                                                # call start or end
+                                                # - don't consume
                  |
                  (\\\r?\n)    # an escaped newline  - throw away
                  |
